@@ -234,6 +234,20 @@ def canonicalise_modules(raw, vocabulary, vocab_fields, strip_lt, log=None):
                 ren[n] = cands[0]
 
     plan(cur_adts, ref_adts)
+    # a renamed struct: same module, identical field list, unique on both sides
+    curf = {}
+    for a in raw.get("adts", []):
+        ap = strip_lt(a["path"])
+        if ap in cur_adts and a.get("kind") == "Struct" and len(a.get("variants", [])) == 1:
+            curf[ap] = [[f["name"], strip_lt(f["ty"])] for f in a["variants"][0]["fields"]]
+    for n in [p for p in cur_adts if p not in ref_adts and p not in ren]:
+        if n not in curf or not curf[n]:
+            continue
+        same_mod = lambda a, b: a.rsplit("::", 1)[0] == b.rsplit("::", 1)[0]
+        cands = [l for l in ref_adts if l not in cur_adts and l not in ren.values() and same_mod(l, n) and [[fn_, ft.replace(l, "\0SELF")] for fn_, ft in vocab_fields[l]] == [[fn_, ft.replace(n, "\0SELF")] for fn_, ft in curf[n]]]
+        rivals = [m for m in cur_adts if m not in ref_adts and m in curf and curf[m] == curf[n]]
+        if len(cands) == 1 and len(rivals) == 1:
+            ren[n] = cands[0]
     plan({p for p in cur_fns if "::".join(p.split("::")[:-1]) not in cur_adts}, {p for p in ref_fns if "::".join(p.split("::")[:-1]) not in ref_types and p.count("::") == 1})
     if not ren:
         return {}
